@@ -19,6 +19,7 @@ STR = 'NSt7__cxx1112basic_stringIcSt11char_traitsIcESaIcEEE'
 # ---- character sets / unicode byte classes
 F('bit_at', 'ada::character_sets::bit_at')
 F('is_tabs_or_newline', 'ada::unicode::is_tabs_or_newline')
+F('broadcast', 'ada::unicode::broadcast')
 F('to_lower_ascii', 'ada::unicode::to_lower_ascii')
 F('has_tabs_or_newline', 'ada::unicode::has_tabs_or_newline')
 F('is_forbidden_host_code_point', 'ada::unicode::is_forbidden_host_code_point')
@@ -40,8 +41,8 @@ F('percent_decode', 'ada::unicode::percent_decode')
 F('form_urlencoded_decode', 'ada::unicode::form_urlencoded_decode')
 F('percent_encode', 'ada::unicode::percent_encode', mangled=r'_ZN3ada7unicode14percent_encodeB5cxx11E%sPKh' % SV)
 F('percent_encode_idx', 'ada::unicode::percent_encode', mangled=r'_ZN3ada7unicode14percent_encodeB5cxx11E%sPKhm' % SV)
-F('percent_encode_append', 'ada::unicode::percent_encode', mangled=r'_ZN3ada7unicode14percent_encodeILb1EEEb%sPKhR%s' % (SV, STR))
-F('percent_encode_overwrite', 'ada::unicode::percent_encode', mangled=r'_ZN3ada7unicode14percent_encodeILb0EEEb%sPKhR%s' % (SV, STR))
+F('percent_encode_append', 'ada::unicode::percent_encode', mangled=r'_ZN3ada7unicode14percent_encodeILb1EEEb.*')
+F('percent_encode_overwrite', 'ada::unicode::percent_encode', mangled=r'_ZN3ada7unicode14percent_encodeILb0EEEb.*')
 F('percent_encode_index', 'ada::unicode::percent_encode_index')
 F('unicode_to_ascii', 'ada::unicode::to_ascii')
 
@@ -80,11 +81,11 @@ F('branchless_load5', 'ada::scheme::details::branchless_load5')
 
 # ---- helpers
 F('prune_hash', 'ada::helpers::prune_hash')
-F('shorten_path_str', 'ada::helpers::shorten_path', mangled=r'_ZN3ada7helpers12shorten_pathER%sNS_6scheme4typeE' % STR)
-F('shorten_path_sv', 'ada::helpers::shorten_path', mangled=r'_ZN3ada7helpers12shorten_pathER%sNS_6scheme4typeE' % SV)
+F('shorten_path_str', 'ada::helpers::shorten_path', mangled=r'_ZN3ada7helpers12shorten_pathERNSt7__cxx11.*')
+F('shorten_path_sv', 'ada::helpers::shorten_path', mangled=r'_ZN3ada7helpers12shorten_pathERSt17basic_string_view.*')
 F('remove_ascii_tab_or_newline', 'ada::helpers::remove_ascii_tab_or_newline')
 F('substring1', 'ada::helpers::substring', mangled=r'_ZN3ada7helpers9substringE%sm' % SV)
-F('substring2', 'ada::helpers::substring', mangled=r'_ZN3ada7helpers9substringERK%smm' % STR)
+F('substring2', 'ada::helpers::substring', mangled=r'_ZN3ada7helpers9substringERKNSt7__cxx11.*mm')
 F('substring3', 'ada::helpers::substring', mangled=r'_ZN3ada7helpers9substringE%smm' % SV)
 F('helpers_resize', 'ada::helpers::resize')
 F('trailing_zeroes', 'ada::helpers::trailing_zeroes')
